@@ -152,13 +152,17 @@ class AddressMixin:
         if self.sheet and other.sheet and self.sheet != other.sheet:
             return VALUE_ERROR
 
-        min_col_idx = min_(self.col_idx, other.col_idx)
-        min_row = min_(self.row, other.row)
+        # an unbounded side (col_idx / row of 0) spans 1..MAX_COL / 1..MAX_ROW
+        col, row = self.col_idx or 1, self.row or 1
+        other_col, other_row = other.col_idx or 1, other.row or 1
 
-        max_col_idx = max_(self.col_idx + self.size.width,
-                           other.col_idx + other.size.width) - 1
-        max_row = max_(self.row + self.size.height,
-                       other.row + other.size.height) - 1
+        min_col_idx = min_(col, other_col)
+        min_row = min_(row, other_row)
+
+        max_col_idx = max_(col + self.size.width,
+                           other_col + other.size.width) - 1
+        max_row = max_(row + self.size.height,
+                       other_row + other.size.height) - 1
 
         if max_col_idx < min_col_idx or max_row < min_row:
             return NULL_ERROR
